@@ -62,10 +62,11 @@ def _check_axes_merge(self, other):
         other = Axis(other, self.name) # to give it the same methods is_monotonic etc...
     # type
     kind, consistent_kinds = _get_cast_kind(self.values.dtype.kind, other.values.dtype.kind)
+    dtype = {'f': float, 'i': int}.get(kind, kind) # `kind` is a kind, not a type code: 'f' alone would mean float32
     if self.dtype.kind != kind:
-        self = self.cast(kind)
+        self = self.cast(dtype)
     if other.dtype.kind != kind:
-        other = other.cast(kind)
+        other = other.cast(dtype)
     return self, other, consistent_kinds
 
 def _get_cast_kind(kind0, kind1):
